@@ -231,6 +231,9 @@ rule(T, 'next', "Some('@')", ['post', 'assert'], ['C14'])
 # ---- every refinement obligation of a parser is part of "Ok iff the text is an expression of the grammar" (C03) and of the
 # agreement argument (C15: the five parsers refine spec parsers generated from tables that are equal on shared entries)
 rule(P, '*', '*', VAL, ['C03', 'C15'])
+# a literal that two evaluators read differently (or that one of them rejects) breaks their agreement (C15)
+for arm in ("Some('0'..='9')", "Some('.')"):
+    rule(T, 'next', arm, ['post', 'invariant', 'assert'], ['C15'])
 # the value property of each evaluator speaks about "the expression's tree": the parser of its own stack building that tree is part of it
 for st, pid in (('f64', 'C05'), ('i64', 'C06'), ('decimal', 'C07'), ('complex', 'C08'), ('number', 'C09')):
     rule(st + '-parser', '*', '*', VAL, [pid])
